@@ -1150,13 +1150,25 @@ class AttrParser(BaseParser):
                 parser.raise_error("Expected integer value", at_position=self.span)
             return int(self.value)
 
-        def to_float(self, parser: AttrParser) -> float:
+        def to_float(self, parser: AttrParser, type: AnyFloat | None = None) -> float:
             """
             Convert the element to a float value. Raises an error if the type
             is compatible.
+            As in MLIR, a hexadecimal integer literal is the bit pattern of the float.
             """
             if isinstance(self.value, tuple):
                 parser.raise_error("No conversion from complex to float")
+            if (
+                type is not None
+                and isinstance(self.value, int)
+                and self.span.text[:2] in ("0x", "0X")
+            ):
+                if self.value >= 1 << (8 * type.compile_time_size):
+                    parser.raise_error(
+                        "Hexadecimal float literal out of range", at_position=self.span
+                    )
+                raw = self.value.to_bytes(type.compile_time_size, "little")
+                return next(type.iter_unpack(raw))
             return float(self.value)
 
         def to_complex(
@@ -1179,7 +1191,7 @@ class AttrParser(BaseParser):
             type: AnyFloat | IntegerType | IndexType | ComplexType,
         ):
             if isinstance(type, AnyFloat):
-                return self.to_float(parser)
+                return self.to_float(parser, type)
 
             match type:
                 case IntegerType():
